@@ -75,9 +75,10 @@ func akSchema(impl string) *jsonapi.Schema {
 	must(s.AddAttr(spare, jsonapi.Attr{Name: "zx", Type: jsonapi.AttrTypeString}))
 	for _, pl := range []string{`{"type":"` + spare + `","id":"h1","attributes":{"zx":"v"}}`, `{"type":"aa0","id":"h2"}`,
 		`{"type":"ak","id":"h3","attributes":{"kint8":5}}`, `{"type":"ak3","id":"h4","attributes":{"t":"x"}}`} {
-		_, _ = jsonapi.UnmarshalResource([]byte(pl), s)
-		_, _ = jsonapi.UnmarshalPartialResource([]byte(pl), s)
-		_, _ = jsonapi.UnmarshalDocument([]byte(`{"data":`+pl+`}`), s)
+		// (whatever these do - refuse, panic - is for the judged cases to show, not for the set-up)
+		catch(func() { _, _ = jsonapi.UnmarshalResource([]byte(pl), s) })
+		catch(func() { _, _ = jsonapi.UnmarshalPartialResource([]byte(pl), s) })
+		catch(func() { _, _ = jsonapi.UnmarshalDocument([]byte(`{"data":`+pl+`}`), s) })
 	}
 	s.RemoveAttr(spare, "zx")
 	s.RemoveType("aa0")
